@@ -117,6 +117,12 @@ def cell_xml(spec, string_attr=True) -> str:
     tag = "table:covered-table-cell" if spec.get("cov") else "table:table-cell"
     if spec.get("cs"):
         attrs += f' table:number-columns-spanned="{spec["cs"]}" table:number-rows-spanned="{spec.get("rs", 1)}"'
+    if spec.get("nested"):
+        # a table inside a cell (text documents): its rows and columns are not the outer table's
+        return (f'<{tag}{attrs}><table:table table:name="Inner"><table:table-column table:number-columns-repeated="2"/>'
+                '<table:table-row><table:table-cell office:value-type="string"><text:p>in1</text:p></table:table-cell><table:table-cell/></table:table-row>'
+                '<table:table-row table:number-rows-repeated="2"><table:table-cell office:value-type="string"><text:p>in2</text:p></table:table-cell><table:table-cell/></table:table-row>'
+                f'</table:table></{tag}>')
     if v is None:
         return f"<{tag}{attrs}/>"
     if isinstance(v, bool):
@@ -318,9 +324,12 @@ class TableSUT:
         if self.doc is not None:
             body = self.doc.body
             old = self.table
-            idx = body.index(old)
-            body.delete(old)
-            body.insert(fresh, position=idx)
+            node, parent = lx(old), lx(old).getparent()
+            if parent is not None:
+                # (at the lxml level: the wrapper of the body may be another one than the table's parent wrapper)
+                parent.replace(node, lx(fresh))
+            else:
+                body.append(fresh)
         self.table = fresh
 
     def position(self):
@@ -464,6 +473,8 @@ def apply_row_edits_sut(row, edits):
             list(row.traverse())
         elif k == "clear":
             row.clear()
+        elif k == "force_width":
+            row.force_width(e["w"])
         else:
             raise ValueError(k)
 
@@ -685,6 +696,11 @@ def apply_sut(sut: TableSUT, op, aux):
             t.extend_rows([row] * len(op["rows"]))
         else:
             raise ValueError(how)
+    elif n == "held_rows_rep":
+        rows = t.get_elements("table:table-row") if op["via"] == "get_elements" else t.get_rows()
+        t.append_row(mk_row(op["row"]))
+        if rows:
+            rows[op["i"] % len(rows)].repeated = op["k"]
     elif n == "live_row_rep_ge":
         # the row ELEMENTS of the table as get_elements() hands them out (they share the table's row map)
         rows = t.get_elements("table:table-row")
@@ -723,7 +739,7 @@ def reapply_with_arg(t, op, arg):
         raise ValueError(n)
 
 
-RAW_MUTATIONS = {"rstrip", "optimize_width", "transpose", "set_span", "del_span", "live_row_rep", "live_cell_rep", "live_row_op", "extend_rows_odd", "live_row_rep_ge"}
+RAW_MUTATIONS = {"rstrip", "optimize_width", "transpose", "set_span", "del_span", "live_row_rep", "live_cell_rep", "live_row_op", "extend_rows_odd", "live_row_rep_ge", "held_rows_rep"}
 
 
 def do_read(t, op):
